@@ -92,7 +92,7 @@ func histfoldReplay(input string) string {
 	return histfoldRun(items)
 }
 
-// histunf \t <n> ; type | old | events | abandon(0/1) ; ...  \t <observation of the last document> [## C17 fresh=...]
+// histunf \t <n> <cache> <resetAlways> ; type | old | events ; ...  \t <observation of the last document> [## C17 fresh=...]
 //
 //	all documents go through ONE Unfolder (SetTarget before each, Reset after an abandoned or
 //	failed one); the last document's observation is compared with a fresh unfolder.
@@ -104,10 +104,13 @@ type unfDoc struct {
 	oldTok  string
 }
 
-func histunfRun(docs []unfDoc) string {
+func histunfRun(cache int, resetAlways bool, docs []unfDoc) string {
 	var res string
 	o := guard(guardTime, func() {
 		u, _ := gotype.NewUnfolder(nil)
+		if cache >= 0 {
+			u.EnableKeyCache(cache)
+		}
 		for i, d := range docs {
 			last := i == len(docs)-1
 			target := reflect.New(d.t)
@@ -132,7 +135,7 @@ func histunfRun(docs []unfDoc) string {
 					res = "R ok V " + valTok(target.Elem()) + " D " + depthsTok(u)
 				}
 			}
-			if err != nil || !complete {
+			if err != nil || !complete || (resetAlways && !last) {
 				u.Reset()
 			}
 		}
@@ -166,11 +169,24 @@ func histunfCase(r *rng) string {
 		docs = append(docs, d)
 		parts = append(parts, fmt.Sprintf("%s | %s | %s", d.typeTok, d.oldTok, eventsTok(d.evs)))
 	}
-	return fmt.Sprintf("histunf\t%d ; %s\t%s", n, strings.Join(parts, " ; "), histunfRun(docs))
+	cache := -1
+	if r.chance(1, 3) {
+		cache = r.n(4)
+	}
+	resetAlways := r.chance(1, 3)
+	ra := 0
+	if resetAlways {
+		ra = 1
+	}
+	return fmt.Sprintf("histunf\t%d %d %d ; %s\t%s", n, cache, ra, strings.Join(parts, " ; "), histunfRun(cache, resetAlways, docs))
 }
 
 func histunfReplay(input string) string {
 	segs := strings.Split(input, ";")
+	cache, resetAlways := -1, false
+	if h := strings.Fields(segs[0]); len(h) >= 3 {
+		cache, resetAlways = atoi(h[1]), h[2] == "1"
+	}
 	var docs []unfDoc
 	for _, s := range segs[1:] {
 		p := strings.SplitN(s, "|", 3)
@@ -182,7 +198,7 @@ func histunfReplay(input string) string {
 		d.evs = parseEventsTok(p[2])
 		docs = append(docs, d)
 	}
-	return histunfRun(docs)
+	return histunfRun(cache, resetAlways, docs)
 }
 
 func init() {
